@@ -111,6 +111,7 @@ class Engine:
         self.inst_done = set()
         self.entry_abase = None
         self.stdout = []                        # ghost stdout: (pc, template)
+        self.external_classes = {"depq.DEPQ": "DEPQ"}
 
     # ------------------------------------------------------------------ helpers
     def fresh(self, base, sort):
@@ -178,7 +179,8 @@ class Engine:
                 bid = base.get_id()
                 if bid in self.init_ref_arrays and i not in self.inst_done:
                     self.inst_done.add(i)
-                    self.axioms.append(z3.And(x >= 0, x < self.alloc0))
+                    # only objects that existed at entry have initialised fields
+                    self.axioms.append(z3.Implies(x.arg(1) < self.alloc0, z3.And(x >= 0, x < self.alloc0)))
                 elif self.init_len is not None and bid == self.init_len.get_id() and i not in self.inst_done:
                     self.inst_done.add(i)
                     self.axioms.append(x >= 0)
@@ -202,6 +204,10 @@ class Engine:
             self.oblige(state, ref.e != 0, "nonnull", node, "dereference .%s" % name)
         e = simp(z3.Select(arr, ref.e))
         self.instantiate_heap_axioms(e)
+        if t and t.startswith(("ref:", "vec:", "list:")) and not z3.is_int_value(e):
+            # heap well-formedness (Python has no dangling or future references): a stored reference denotes None
+            # or an object that has already been allocated
+            state.assume(z3.And(e >= 0, e < state.abase + state.nalloc))
         return self.wrap(self.norm(e), t)
 
     @staticmethod
@@ -324,7 +330,7 @@ class Engine:
             if z3.is_select(x) and z3.is_select(x.arg(0)) and x.arg(0).arg(0).get_id() == self.init_elemI.get_id() \
                     and i not in self.inst_done:
                 self.inst_done.add(i)
-                self.axioms.append(z3.And(x >= 0, x < self.alloc0))
+                self.axioms.append(z3.Implies(x.arg(0).arg(1) < self.alloc0, z3.And(x >= 0, x < self.alloc0)))
             stack.extend(x.children())
 
     def vec_set(self, state, ref, idx, val, node=None, ghost=False):
@@ -459,7 +465,14 @@ class Engine:
             state.heap["$len"] = z3.Store(la, r, nl)
             state.assume(nl >= 0)
         elif kind == "obj":
-            self.unsupported("havoc of whole object footprint")
+            for name, arr in list(state.heap.items()):
+                if name.startswith("$"):
+                    continue
+                state.heap[name] = z3.Store(arr, r, self.fresh("hv_" + name, arr.sort().range()))
+                t = self.field_type(name)
+                if t and t.startswith(("ref:", "vec:", "list:")):
+                    v = z3.Select(state.heap[name], r)
+                    state.assume(z3.And(v >= 0, v < state.abase + state.nalloc))
         elif kind == "any":
             self.unsupported("havoc of '*'")
 
@@ -601,6 +614,8 @@ class Engine:
                 self.unsupported("sequence attribute .%s" % attr, node)
             cls = self.spec_class(base)
             mattr = mangle(self.cur_class, attr)
+            if cls is not None and (cls, attr) in self.contracts and self.repo.cls(cls) is None:
+                return BoundMethod(base, cls, attr, "external", None)
             if cls is not None:
                 ci, fn = self.repo.find_method(cls, attr)
                 if fn is not None:
@@ -664,10 +679,22 @@ class Engine:
             return v
         self.unsupported("unary operator", node)
 
+    def _push_guard(self, state, cond):
+        state.pc.append(to_z3(cond, BoolS))
+        return len(state.pc) - 1
+
+    def _pop_guard(self, state, idx):
+        """remove the temporary guard at position idx; assumptions made while it was active become guarded"""
+        g = state.pc[idx]
+        later = state.pc[idx + 1:]
+        del state.pc[idx:]
+        for a in later:
+            state.pc.append(z3.Implies(g, a))
+
     def e_BoolOp(self, state, node):
         is_and = isinstance(node.op, ast.And)
         acc = []
-        added = 0
+        guards = []
         try:
             for sub in node.values:
                 v = self.truth(self.eval(state, sub), sub)
@@ -679,11 +706,10 @@ class Engine:
                     continue
                 acc.append(v)
                 # short-circuit: later operands are evaluated only when this one is true (and) / false (or)
-                state.pc.append(to_z3(v if is_and else znot(v), BoolS))
-                added += 1
+                guards.append(self._push_guard(state, v if is_and else znot(v)))
         finally:
-            for _ in range(added):
-                state.pc.pop()
+            for idx in reversed(guards):
+                self._pop_guard(state, idx)
         if not acc:
             return is_and
         return zand(*acc) if is_and else zor(*acc)
@@ -693,16 +719,16 @@ class Engine:
         cc = concrete(c)
         if cc is not None:
             return self.eval(state, node.body if cc else node.orelse)
-        state.pc.append(to_z3(c, BoolS))
+        g = self._push_guard(state, c)
         try:
             a = self.eval(state, node.body)
         finally:
-            state.pc.pop()
-        state.pc.append(to_z3(znot(c), BoolS))
+            self._pop_guard(state, g)
+        g = self._push_guard(state, znot(c))
         try:
             b = self.eval(state, node.orelse)
         finally:
-            state.pc.pop()
+            self._pop_guard(state, g)
         v = merge_value(to_z3(c, BoolS), a, b)
         if isinstance(v, Poison):
             self.unsupported("conditional expression: " + v.why, node)
@@ -1012,6 +1038,8 @@ class Engine:
         if isinstance(f, Builtin):
             return self.call_builtin(state, f.name, args, kw, node)
         if isinstance(f, BoundMethod):
+            if f.fn == "external":
+                return self.call_external(state, f.cls, f.name, [f.recv] + args, kw, node)
             if f.fn is None:
                 return self.call_seq_method(state, f, args, kw, node)
             return self.invoke(state, f.info, f.name, f.fn, [f.recv] + args, kw, node, recv_cls=f.cls)
@@ -1122,8 +1150,8 @@ class Engine:
         self.trace_calls.append(((cname, name), getattr(node, "lineno", 0)))
         if con is not None:
             return self.apply_contract(state, con, bound, node)
-        if self.inline is not None and (cname, name) not in self.inline and ("*", name) not in self.inline \
-                and (cname, "*") not in self.inline:
+        if self.inline is not None and self.spec_mode == 0 and (cname, name) not in self.inline \
+                and ("*", name) not in self.inline and (cname, "*") not in self.inline:
             self.unsupported("call to %s.%s has neither a contract nor an inline permission" % (cname, name), node)
         return self.call_function(state, ci, name, fn, None, None, node, bound=bound, module=module)
 
@@ -1269,6 +1297,8 @@ class Engine:
             env2 = dict(env)
             env2["result"] = res
             env2["$mark"] = mark
+            if con.allocates:
+                env2["$upper"] = state.abase
             for gname, gt in con.ghost_results.items():
                 env2[gname] = self.typed_fresh(state, "g_" + gname, gt)
                 state.env[gname] = env2[gname]      # ghost out-parameters become ghost locals of the caller
@@ -1286,6 +1316,33 @@ class Engine:
             self.cur_class = saved_cls
 
     caller_env_stack = []
+
+    def call_external(self, state, cls, name, args, kw, node=None):
+        """method of a dependency (depq.DEPQ ...): only its ASSUMED contract is known"""
+        con = self.contracts.get((cls, name))
+        if con is None:
+            self.unsupported("no assumed contract for external %s.%s" % (cls, name), node)
+        order = list(con.params.keys())
+        names = ["self"] + order
+        bound = {}
+        if len(args) > len(names):
+            self.oblige(state, False, "arity", node, "%s.%s() takes %d arguments" % (cls, name, len(names)))
+        for n, v in zip(names, args):
+            bound[n] = v
+        for k, v in kw.items():
+            if k not in names:
+                self.oblige(state, False, "arity", node, "%s.%s() unexpected keyword %s" % (cls, name, k))
+                continue
+            bound[k] = v
+        for n in order:
+            if n not in bound:
+                d = getattr(con, "defaults", {}).get(n, "$missing")
+                if d == "$missing":
+                    self.oblige(state, False, "arity", node, "%s.%s() missing argument %s" % (cls, name, n))
+                    d = None
+                bound[n] = d
+        self.trace_calls.append(((cls, name), getattr(node, "lineno", 0)))
+        return self.apply_contract(state, con, bound, node)
 
     def call_seq_method(self, state, f, args, kw, node=None):
         ref = f.recv
@@ -1314,6 +1371,12 @@ class Engine:
     def call_builtin(self, state, name, args, kw, node=None):
         if name in self.builtin_overrides:
             return self.builtin_overrides[name](self, state, args, kw, node)
+        if name in self.external_classes:
+            cls = self.external_classes[name]
+            obj = self.alloc(state, cls)
+            if (cls, "__init__") in self.contracts:
+                self.call_external(state, cls, "__init__", [obj] + args, kw, node)
+            return obj
         if name.startswith("spec:"):
             return self.spec_funcs[name[5:]](self, state, *args)
         if name == "print":
@@ -1323,8 +1386,10 @@ class Engine:
             v = args[0]
             if isinstance(v, Tuple_):
                 return len(v.items)
-            if isinstance(v, Ref):
+            if isinstance(v, Ref) and (v.cls or "").startswith(("vec:", "list:")):
                 return self.vec_len(state, v)
+            if isinstance(v, Ref) and (v.cls, "__len__") in self.contracts:
+                return self.call_external(state, v.cls, "__len__", [v], {}, node)
             self.unsupported("len of %r" % (v,), node)
         if name == "range":
             vals = [concrete(a) for a in args]
